@@ -94,6 +94,9 @@ func c19(r *Report, s *Sem) {
 		fmt.Sprintf("%d exit(s) %v where the receiver is gone but state==established and the transport still counts as connected: the client keeps handing out a deaf channel and its listener spins on the closed done signal", len(bad), bad))
 	// the stop routine is reachable only from terminal arms / Close (so 'context cancelled' really means requested): C13.R2
 
+	R5 := r.Rule("R5", "closing flips the transport to disconnected: Transport.Close implementations close the underlying connection unless the handle is nil and clear the handle whatever the close returned (R1's 'passes Transport.Close' relies on it), and channel.Close always reaches Transport.Close", 4)
+	checkCloseReallyCloses(r, s, R5)
+
 	// ---- R2
 	gob := p.Method("Client", "getOrBuildChannel")
 	build := p.Method("Client", "buildChannel")
